@@ -158,6 +158,11 @@ def gen_static():
     folds_long('c17_product_quat_long', 'Quaternion<R>', 'Quaternion::<R>::one()', '*', 'product', 4, 6)
     folds_long('c17_sum_rad_long', 'Rad<R>', 'Rad::<R>::zero()', '+', 'sum', 5, 9)
     folds_long('c17_sum_matrix2_long', 'Matrix2<R>', 'Matrix2::<R>::zero()', '+', 'sum', 4, 9)
+    folds_long('c17_product_matrix2_long', 'Matrix2<R>', 'Matrix2::<R>::identity()', '*', 'product', 4, 6)
+    folds_long('c17_product_matrix3_long', 'Matrix3<R>', 'Matrix3::<R>::identity()', '*', 'product', 3, 5)
+    folds_long('c17_product_matrix4_long', 'Matrix4<R>', 'Matrix4::<R>::identity()', '*', 'product', 3, 5)
+    folds_long('c17_sum_matrix3_long', 'Matrix3<R>', 'Matrix3::<R>::zero()', '+', 'sum', 4, 6)
+    folds_long('c17_sum_matrix4_long', 'Matrix4<R>', 'Matrix4::<R>::zero()', '+', 'sum', 4, 6)
     for m in MAT:
         folds('c17_sum_%s' % m.lower(), '%s<R>' % m, '%s::<R>::zero()' % m, '+', 'sum', 3)
         # (fewer factors for the larger matrices: a data-dependent branch per factor would multiply paths)
